@@ -5,6 +5,7 @@ From Coq Require Import List Arith Bool Lia Permutation Sorted ZArith.
 Import ListNotations.
 From QV Require Import Found.Base Found.Lemmas Model.Einsum Model.GSP Model.GateSim.
 From QV Require Import Proofs.GSPLists Proofs.GSPSem Proofs.GSPTop Proofs.EinsumProofs Proofs.GateSimProofs Proofs.C01Top.
+From QV Require Import Proofs.GSPAny Proofs.GSPTotal Proofs.GSPTotalTop.
 
 Section C01.
 Variable O : Ops.
@@ -99,6 +100,13 @@ Theorem gsp_correct_any_ascending_order ord (l : list (list nat)) c inds : ord_a
   forall psi : state O, sem (den O G (fplace inds c)) psi = sem (den O G (number l)) psi.
 Proof. exact (gsp_correct_asc O Kring G ord l c inds). Qed.
 
+(* totality + correctness: for EVERY non-empty list of duplicate-free index lists (an empty index list = a scalar factor,
+   e.g. the propagator of a GLOBALPHASE gate) the repaired compact product returns a value and it is the ordered product *)
+Theorem gsp_total_and_correct (l : list (list nat)) : l <> [] -> Forall (@NoDup nat) l ->
+  exists c inds, gsp_top ord_sorted l = Some (c, inds) /\
+    forall psi : state O, sem (den O G (fplace inds c)) psi = sem (den O G (number l)) psi.
+Proof. exact (gsp_total_correct O Kring G l). Qed.
+
 (* ---- user gates ---- *)
 Variable Arg : Type.
 Variable user : list (String.string * uentry O Arg).
@@ -127,8 +135,22 @@ Print Assumptions ket_dm_agree.
 Print Assumptions dm_run_is_conjugation.
 Print Assumptions gsp_correct.
 Print Assumptions gsp_correct_any_ascending_order.
+Print Assumptions gsp_total_and_correct.
 Print Assumptions user_gate_with_controls_refused.
 Print Assumptions user_gate_lookup_forms.
+
+(* the model of gate_sequence_product(expand=True) never refuses a well-formed input (any ascending oracle): every
+   expand_operator check, dict lookup and tensor call succeeds and the recursion (on strictly shorter suffixes) ends *)
+Theorem gsp_total ord (l : list (list nat)) : ord_asc ord -> l <> [] -> Forall (@NoDup nat) l ->
+  exists r, gsp_top ord l = Some r.
+Proof. exact (gsp_top_total ord l). Qed.
+Print Assumptions gsp_total.
+
+(* the core (no empty index lists): returns the sorted list of distinct qubits *)
+Theorem gsp_core_total ord : ord_asc ord -> forall fuel gs, gs <> [] -> gs_ok gs -> length gs <= fuel ->
+  exists r, gsp ord fuel gs = Some r /\ snd r = isort (dedup (flat_map snd gs)).
+Proof. exact (GSPTotal.gsp_total ord). Qed.
+Print Assumptions gsp_core_total.
 
 (* the unchanged code is wrong for an admissible (permutation) set order *)
 Theorem gsp_refuted_unsorted :
@@ -174,6 +196,15 @@ Example gsp_ten_qubits_inhabited : exists c, gsp_top ord_sorted [[0]; [1]; [2]; 
   Some (c, [0; 1; 2; 3; 4; 5; 6; 7; 8; 9]).
 Proof. exact gsp_example_big. Qed.
 Print Assumptions gsp_ten_qubits_inhabited.
+
+Example gsp_with_phases_inhabited : gsp_top ord_sorted [[]; [4]; []; [4; 2]; []] =
+  Some ([(1, [1]); (3, [1; 0]); (0, []); (2, []); (4, [])], [2; 4]).
+Proof. exact gsp_phase_example. Qed.
+Print Assumptions gsp_with_phases_inhabited.
+
+Example wellformed_inhabited : [[]; [4]; []; [4; 2]; []] <> [] /\ Forall (@NoDup nat) [[]; [4]; []; [4; 2]; []].
+Proof. split; [discriminate|]. repeat constructor; simpl; intuition discriminate. Qed.
+Print Assumptions wellformed_inhabited.
 
 Example ord_sorted_is_ascending : ord_asc ord_sorted.
 Proof. exact ord_sorted_asc. Qed.
